@@ -79,10 +79,11 @@ fn do_get(it: &Interner, ty: u8, key: u8) -> Option<Hd> {
 struct Report {
     evaluations: u64, nontrivial: u64, samples: Vec<String>, dist: BTreeMap<String, u64>,
     failures: Vec<(String, String, String)>,
+    seed: u64,
 }
 impl Report {
     fn bump(&mut self, k: &str, n: u64) { *self.dist.entry(k.to_string()).or_insert(0) += n; }
-    fn fail(&mut self, sig: &str, desc: String, case: String) { if self.failures.len() < 20 { self.failures.push((sig.to_string(), desc, case)); } }
+    fn fail(&mut self, sig: &str, desc: String, case: String) { if self.failures.len() < 20 { let c = format!("{case}\n#seed {}", self.seed); self.failures.push((sig.to_string(), desc, c)); } }
 }
 
 // ------------------------------------------------------------------------------------------------ S: sequential
@@ -490,27 +491,36 @@ fn main() {
     let a = args();
     let mut out = Out::new(&a.out);
     let mut rep = Report::default();
+    rep.seed = a.seed;
     let thorough = a.tier == "thorough";
+    let mut seed = a.seed;
+    let mut script: Option<Vec<String>> = None;
     let prev = std::panic::take_hook();
     std::panic::set_hook(Box::new(|_| {}));
     if let Some(f) = &a.replay {
-        // replay file: either the `case` text of an oracle failure (S lines are re-executed; T cases are re-run
-        // with the same parameters because an interleaving cannot be forced), or a JSON replay with a "case" key.
+        // replay file: the JSON written by tools/check (key "case") or the bare case text.  An `S` case is
+        // re-executed op by op; for `T` / `X` cases (an interleaving cannot be forced) the whole shard that produced
+        // the case is re-run from its seed, recorded in the trailing `#seed N` line.
         let txt = std::fs::read_to_string(f).unwrap_or_default();
-        let body = if let Some(i) = txt.find("\"case\": \"") { let rest = &txt[i + 9..]; rest[..rest.find("\",\n").or(rest.rfind('"')).unwrap_or(rest.len())].replace("\\n", "\n").replace("\\\"", "\"") } else { txt };
-        let lines: Vec<String> = body.lines().map(|l| l.to_string()).collect();
-        let mut rng = Rng::new(a.seed);
-        if lines.first().map(|l| l.starts_with("S ")).unwrap_or(false) { seq_case(&mut rng, &mut out, &mut rep, Some(&lines[..])); }
-        else if lines.first().map(|l| l.starts_with("T ")).unwrap_or(false) { for i in 0..200 { thread_case(&mut rng, &mut out, &mut rep, i, true); } }
-        else { for _ in 0..200 { enc_case(&mut rng, &mut out, &mut rep); } }
+        let body = if let Some(i) = txt.find("\"case\": \"") { let rest = &txt[i + 9..]; let mut o = String::new(); let mut it = rest.chars();
+            while let Some(ch) = it.next() { match ch { '"' => break, '\\' => match it.next() { Some('n') => o.push('\n'), Some(c) => o.push(c), None => break }, c => o.push(c) } } o } else { txt };
+        let mut lines: Vec<String> = body.lines().map(|l| l.to_string()).collect();
+        if let Some(l) = lines.iter().find(|l| l.starts_with("#seed ")) { seed = l[6..].trim().parse().unwrap_or(seed); }
+        lines.retain(|l| !l.starts_with('#'));
+        if lines.first().map(|l| l.starts_with("S begin")).unwrap_or(false) { script = Some(lines); }
+    }
+    rep.seed = seed;
+    if let Some(lines) = &script {
+        let mut rng = Rng::new(seed);
+        seq_case(&mut rng, &mut out, &mut rep, Some(&lines[..]));
     } else {
         let n = a.n.unwrap_or(if thorough { 160 } else { 40 });
-        let mut rng = Rng::new(a.seed);
+        let mut rng = Rng::new(seed);
         // a panic that escapes a case (e.g. while the harness builds its inputs through the interner) is an
         // oracle failure of that case, not a crash of the harness
         macro_rules! guarded { ($name:expr, $e:expr) => {{
             let r = catch_unwind(AssertUnwindSafe(|| $e));
-            if r.is_err() { rep.fail("case-panic", format!("the interner panicked inside a {} case", $name), format!("{} seed={} iteration", $name, a.seed)); }
+            if r.is_err() { rep.fail("case-panic", format!("the interner panicked inside a {} case", $name), format!("{} case", $name)); }
         }}; }
         for i in 0..n {
             guarded!("S", seq_case(&mut rng, &mut out, &mut rep, None));
